@@ -213,6 +213,14 @@ impl Scenario for TimeConservation {
                 _ => {}
             }
         }
+        // a dispatch whose pushes land on IE / IF (possibly cancelling itself) must still cost its five cycles
+        if rng.chance(1, 6) {
+            case.push("w", &[0xffff, rng.pick(&[0x1fi64, 0x04, 0x01, 0x10])]);
+            case.push("ime", &[1]);
+            case.push("setsp", &[rng.pick(&[0x0000i64, 0xff10, 0x0001, 0xff11, 0xc100])]);
+            case.push("q", &[rng.pick(&[0x01i64, 0x04, 0x10, 0x1f])]);
+            case.push("s", &[rng.range(1, 4)]);
+        }
         // states from which stepping to the next frame must still terminate
         match rng.below(6) {
             0 => case.push("w", &[0xff40, rng.pick(&[0x00i64, 0x11, 0x7f])]),
@@ -256,6 +264,18 @@ impl Scenario for TimeConservation {
                     let (ad, v) = (op.arg(0) as u16, op.arg(1) as u8);
                     a.write(ad, v);
                     t.write(ad, v);
+                }
+                "ime" => {
+                    let v = if op.arg(0) != 0 { IME_ON } else { IME_OFF };
+                    a.set_ime(v);
+                    t.set_ime(v);
+                }
+                "setsp" => {
+                    for m in [&mut *a, &mut *t] {
+                        let mut r = m.regs();
+                        r.sp = (op.arg(0) & 0xffff) as u32;
+                        m.set_regs(r);
+                    }
                 }
                 "halt" => {
                     let s = if op.arg(0) == 2 { STOP } else { HALT };
